@@ -76,7 +76,8 @@ META = {
         "subset family with major forms deviating from (table, table, table) in <= L3_major_dev revisions (thorough: all; 4 configurations, 2 for vectors with 3 deviations), "
         "thorough also 4-revision histories with <= 2 deviations. extension families: X1 one revision x stream/hybrid forms x W x xref-stream coding {none, Flate, Flate+Predictor 12} x generations {all 0, >0}; X2 two revisions, every user object defined then each one untouched/defined again/freed x 25 major form pairs x coding/generation modes; X3 (and thorough X4) /Prev chains of 3 (4) revisions over objects 10, 11 mixing definitions, free entries, re-definitions after a free, generations and compressed streams, major forms with <= X3_major_dev (X4: 2) deviations. Every prefix of an enumerated history is itself a member of the "
         "family of shorter histories. WG: the newer of two revisions written with every /W triple in {0,1,2} x {2,3,4} x {0,1,2,4} (zero widths = defaults; inexpressible combinations counted under not_judged) "
-        "x 4 stream/hybrid forms x {uncompressed, Flate+Predictor} x 4 define sets (a lone object-stream member has index 0). REF: objects whose whole value is an indirect reference, direct and as first/middle/last/only "
+        "x 4 stream/hybrid forms x {uncompressed, Flate+Predictor} x 4 define sets (a lone object-stream member has index 0). XV: one cross-reference stream section per /W in {1,2} x {1..4} x {0..4} (x 3 codings) holding every pair of byte-width boundary values (0x7F/0x80 ... 0x7FFFFFFF/0x80000000/0xFFFFFFFF) as type-1 and type-2 entries, "
+        "read back with PDFXRefStream.get_pos/get_objids (a document with such offsets would need 2 GiB). REF: objects whose whole value is an indirect reference, direct and as first/middle/last/only "
         "object-stream member, 25 major form pairs. long-history family (both tiers): 50/600/1500/3000 revisions, each update redefining one of three content streams in turn, every 500th adding an object and "
         "redefining the catalog, the last redefining /Info; all tables / all xref streams / alternating table-stream-hybrid; caching on and off; extract_text must show the newest content of every page. damage part: 2 classic-table seeds plus 10 variants of the first seed whose content stream ends in every way (data directly before endstream, data ending in LF/CR/CRLF, blank lines, CR line ends, a single line, EOL LF/CRLF before endstream; /Length exact; quick: the first variant gets every damage kind, the others the operand/keyword/header kinds; thorough: all) x every startxref operand 0..len+8, 8 malformed operands, "
         "misspelt keywords, subsection headers with 1/3/non-numeric fields, every single-byte deletion and 3 single-byte insertions "
@@ -964,6 +965,7 @@ def shards(tier):
         out += [("X4", i, j, k) for i in range(len(v4)) for j in range(len(v4)) for k in range(len(v4))]
     out += [("WG", i) for i in range(len(W_GRID))]
     out += [("REF", i) for i in range(len(REF_POSITIONS))]
+    out += [("XV", i) for i in range(len(FIELD_WIDTHS))]
     out += [("LONG", nrev, fm) for nrev in LONG_REVISIONS for fm in LONG_FORMS]
     for which, kinds in seed_ids(tier):
         n = seed_doc(which)[1]["len"] + 9
@@ -1011,6 +1013,83 @@ def fam_wgrid(st, tier, W, diff):
                     check_document(st, [tuple(users), d1], ["none", "none"], [phys5(m0, None), phys5(m1, xf, W)],
                                    [CONFIGS_SMALL[0], CONFIGS_SMALL[3]], diff,
                                    sample=(W == (1, 2, 0) and d1 == (users[1],) and m1 == MAJOR[2] and m0 == MAJOR[0] and xf is None))
+
+
+FIELD_VALUES = (0, 1, 0x7F, 0x80, 0xFF, 0x100, 0x7FFF, 0x8000, 0xFFFF, 0x10000, 0x7FFFFF, 0x800000, 0xFFFFFF, 0x1000000,
+                0x7FFFFFFF, 0x80000000, 0xFFFFFFFF)
+FIELD_WIDTHS = tuple((a, b, c) for a in (1, 2) for b in (1, 2, 3, 4) for c in (0, 1, 2, 3, 4))
+
+
+def xv_entries(W):
+    """entries numbered 1.. : every pair of boundary values that fits fields 2 and 3, as a type-1 entry (offset,
+    generation) and as a type-2 entry (object stream number, index)"""
+    f2 = [v for v in FIELD_VALUES if v < 1 << (8 * W[1])]
+    f3 = [v for v in FIELD_VALUES if v < 1 << (8 * W[2])] if W[2] else [0]
+    ents: Dict[int, Tuple[int, int, int]] = {}
+    n = 1
+    for t in (1, 2):
+        for a in f2:
+            for b in f3:
+                ents[n] = (t, a, b)
+                n += 1
+    return ents
+
+
+def judge_fieldvalues(case: Dict[str, Any]) -> List[Tuple[str, Any, Any, str]]:
+    """A cross-reference stream section read on its own: get_pos(n) gives back exactly the field values written,
+    for values at every byte-width boundary (a real file would need 2 GiB offsets for the upper ones)."""
+    from pdfminer.pdfdocument import PDFXRefStream
+    from pdfminer.pdfparser import PDFParser
+
+    class _NoDoc:
+        decipher = None
+
+    W = tuple(case["W"])
+    ents = xv_entries(W)
+    parser = PDFParser(io.BytesIO(case["data"]))
+    parser.set_document(_NoDoc())  # type: ignore[arg-type]
+    x = PDFXRefStream()
+    try:
+        x.load(parser)
+    except Exception as e:  # noqa
+        return [(f"C02/xref-stream-fields:load:{exc_name(e)}", "section loads", exc_name(e), f"/W {list(W)}: loading the section raised")]
+    for n, (t, a, b) in ents.items():
+        exp = (None, a, b) if t == 1 else (a, b, 0)
+        try:
+            got: Any = tuple(x.get_pos(n))
+        except Exception as e:  # noqa
+            got = ("EXC", exc_name(e))
+        if got != exp:
+            width = 4 if (a >= 1 << 24 or b >= 1 << 24) else 0
+            neg = isinstance(got, tuple) and any(isinstance(v, int) and v < 0 for v in got)
+            sig = "C02/xref-stream-fields:4-byte-field-read-signed" if (neg and width == 4) else f"C02/xref-stream-fields:wrong-value:W={list(W)}"
+            return [(sig, exp, got, f"/W {list(W)}, entry {n} (type {t}, fields {a:#x}, {b:#x}): get_pos does not return the values written")]
+    ids = sorted(x.get_objids())
+    if ids != sorted(ents):
+        return [("C02/xref-stream-fields:objids", len(ents), len(ids), f"/W {list(W)}: get_objids does not list the in-use entries")]
+    return []
+
+
+def fam_fieldvalues(st, tier, W):
+    from mc.refs.xrefhist import stream_with_length, xref_stream
+
+    ents = xv_entries(W)
+    first = True
+    for xf in XFILTERS:
+        xs = stream_with_length(xref_stream(dict(ents), W, {}, max(ents) + 1, xf))
+        data = b"9 0 obj\n" + ser(xs) + b"\nendobj\n"
+        case = {"part": "fields", "W": W, "xfilter": xf, "data": data}
+        res = judge_fieldvalues(case)
+        for sig, e, o, what in res:
+            st.violation(sig, case, e, o, what)
+        st.case(None, nontrivial=True, outcome=("fields", W, xf, bool(res)))
+        st.states += len(ents)
+        st.transitions += len(ents)
+        st.traces += 1
+        st.add("xref_stream_entries_read_back", len(ents))
+        if first and W == (1, 4, 2):
+            st.sample({"field_values": True, "W": W, "entries": len(ents), "bytes": len(data)})
+            first = False
 
 
 REF_POSITIONS = ("first", "middle", "last", "only")
@@ -1133,6 +1212,8 @@ def run_shard(shard, tier, st):
         fam_xn(st, tier, 4, (10, 11), [v4[i] for i in shard[1:]], ("none", "recat", "none", "newroot"), MODES6[1::2] + MODES6[:1], 2, diff)
     elif fam == "WG":
         fam_wgrid(st, tier, W_GRID[shard[1]], diff)
+    elif fam == "XV":
+        fam_fieldvalues(st, tier, FIELD_WIDTHS[shard[1]])
     elif fam == "REF":
         fam_bareref(st, tier, REF_POSITIONS[shard[1]], diff)
     elif fam == "LONG":
@@ -1146,6 +1227,8 @@ def run_shard(shard, tier, st):
 def replay(case):
     if case.get("part") == "damage":
         res = judge_damage(case)
+    elif case.get("part") == "fields":
+        res = judge_fieldvalues(case)
     elif case.get("part") == "long":
         case["params"] = tuple(case["params"])
         res = judge_long(case)
